@@ -111,10 +111,10 @@ fn components_to_ts(
     year: i32,
     month: i32,
     day: i32,
-    hour: u32,
-    minute: u32,
-    second: u32,
-    ms: u32,
+    hour: i64,
+    minute: i64,
+    second: i64,
+    ms: i64,
 ) -> f64 {
     // Handle 2-digit years (0-99 map to 1900-1999)
     let year = if (0..100).contains(&year) {
@@ -132,10 +132,10 @@ fn components_to_ts(
     let base_days = ymd_to_days(norm_year, norm_month, 1);
     let total_days = base_days + (day - 1) as i64;
 
-    let time_ms = hour as i64 * MS_PER_HOUR
-        + minute as i64 * MS_PER_MINUTE
-        + second as i64 * MS_PER_SECOND
-        + ms as i64;
+    let time_ms = hour * MS_PER_HOUR
+        + minute * MS_PER_MINUTE
+        + second * MS_PER_SECOND
+        + ms;
 
     (total_days * MS_PER_DAY + time_ms) as f64
 }
@@ -213,10 +213,10 @@ fn parse_iso8601(s: &str) -> Option<f64> {
         year,
         (month - 1) as i32,
         day as i32,
-        hour,
-        minute,
-        second,
-        ms,
+        hour as i64,
+        minute as i64,
+        second as i64,
+        ms as i64,
     ))
 }
 
@@ -377,10 +377,10 @@ pub fn date_constructor(
         let year = args.first().map(|v| v.to_number()).unwrap_or(f64::NAN) as i32;
         let month = args.get(1).map(|v| v.to_number()).unwrap_or(0.0) as i32;
         let day = args.get(2).map(|v| v.to_number()).unwrap_or(1.0) as i32;
-        let hours = args.get(3).map(|v| v.to_number()).unwrap_or(0.0) as u32;
-        let minutes = args.get(4).map(|v| v.to_number()).unwrap_or(0.0) as u32;
-        let seconds = args.get(5).map(|v| v.to_number()).unwrap_or(0.0) as u32;
-        let ms = args.get(6).map(|v| v.to_number()).unwrap_or(0.0) as u32;
+        let hours = args.get(3).map(|v| v.to_number()).unwrap_or(0.0) as i64;
+        let minutes = args.get(4).map(|v| v.to_number()).unwrap_or(0.0) as i64;
+        let seconds = args.get(5).map(|v| v.to_number()).unwrap_or(0.0) as i64;
+        let ms = args.get(6).map(|v| v.to_number()).unwrap_or(0.0) as i64;
 
         components_to_ts(year, month, day, hours, minutes, seconds, ms)
     };
@@ -413,10 +413,10 @@ pub fn date_utc(
     let year = args.first().map(|v| v.to_number()).unwrap_or(f64::NAN) as i32;
     let month = args.get(1).map(|v| v.to_number()).unwrap_or(0.0) as i32;
     let day = args.get(2).map(|v| v.to_number()).unwrap_or(1.0) as i32;
-    let hours = args.get(3).map(|v| v.to_number()).unwrap_or(0.0) as u32;
-    let minutes = args.get(4).map(|v| v.to_number()).unwrap_or(0.0) as u32;
-    let seconds = args.get(5).map(|v| v.to_number()).unwrap_or(0.0) as u32;
-    let ms = args.get(6).map(|v| v.to_number()).unwrap_or(0.0) as u32;
+    let hours = args.get(3).map(|v| v.to_number()).unwrap_or(0.0) as i64;
+    let minutes = args.get(4).map(|v| v.to_number()).unwrap_or(0.0) as i64;
+    let seconds = args.get(5).map(|v| v.to_number()).unwrap_or(0.0) as i64;
+    let ms = args.get(6).map(|v| v.to_number()).unwrap_or(0.0) as i64;
 
     let timestamp = components_to_ts(year, month, day, hours, minutes, seconds, ms);
     Ok(Guarded::unguarded(JsValue::Number(timestamp)))
@@ -638,7 +638,7 @@ pub fn date_set_full_year(
         .unwrap_or(c.day as i32);
 
     let new_ts = components_to_ts(
-        new_year, new_month, new_day, c.hour, c.minute, c.second, c.ms,
+        new_year, new_month, new_day, c.hour as i64, c.minute as i64, c.second as i64, c.ms as i64,
     );
     let ts = set_date_timestamp(&this, new_ts)?;
     Ok(Guarded::unguarded(JsValue::Number(ts)))
@@ -663,7 +663,7 @@ pub fn date_set_month(
         .map(|v| v.to_number() as i32)
         .unwrap_or(c.day as i32);
 
-    let new_ts = components_to_ts(c.year, new_month, new_day, c.hour, c.minute, c.second, c.ms);
+    let new_ts = components_to_ts(c.year, new_month, new_day, c.hour as i64, c.minute as i64, c.second as i64, c.ms as i64);
     let ts = set_date_timestamp(&this, new_ts)?;
     Ok(Guarded::unguarded(JsValue::Number(ts)))
 }
@@ -687,10 +687,10 @@ pub fn date_set_date(
         c.year,
         (c.month - 1) as i32,
         new_day,
-        c.hour,
-        c.minute,
-        c.second,
-        c.ms,
+        c.hour as i64,
+        c.minute as i64,
+        c.second as i64,
+        c.ms as i64,
     );
     let ts = set_date_timestamp(&this, new_ts)?;
     Ok(Guarded::unguarded(JsValue::Number(ts)))
@@ -706,16 +706,16 @@ pub fn date_set_hours(
         return Ok(Guarded::unguarded(JsValue::Number(f64::NAN)));
     };
 
-    let new_hour = args.first().map(|v| v.to_number() as u32).unwrap_or(c.hour);
+    let new_hour = args.first().map(|v| v.to_number() as i64).unwrap_or(c.hour as i64);
     let new_min = args
         .get(1)
-        .map(|v| v.to_number() as u32)
-        .unwrap_or(c.minute);
+        .map(|v| v.to_number() as i64)
+        .unwrap_or(c.minute as i64);
     let new_sec = args
         .get(2)
-        .map(|v| v.to_number() as u32)
-        .unwrap_or(c.second);
-    let new_ms = args.get(3).map(|v| v.to_number() as u32).unwrap_or(c.ms);
+        .map(|v| v.to_number() as i64)
+        .unwrap_or(c.second as i64);
+    let new_ms = args.get(3).map(|v| v.to_number() as i64).unwrap_or(c.ms as i64);
 
     let new_ts = components_to_ts(
         c.year,
@@ -742,19 +742,19 @@ pub fn date_set_minutes(
 
     let new_min = args
         .first()
-        .map(|v| v.to_number() as u32)
-        .unwrap_or(c.minute);
+        .map(|v| v.to_number() as i64)
+        .unwrap_or(c.minute as i64);
     let new_sec = args
         .get(1)
-        .map(|v| v.to_number() as u32)
-        .unwrap_or(c.second);
-    let new_ms = args.get(2).map(|v| v.to_number() as u32).unwrap_or(c.ms);
+        .map(|v| v.to_number() as i64)
+        .unwrap_or(c.second as i64);
+    let new_ms = args.get(2).map(|v| v.to_number() as i64).unwrap_or(c.ms as i64);
 
     let new_ts = components_to_ts(
         c.year,
         (c.month - 1) as i32,
         c.day as i32,
-        c.hour,
+        c.hour as i64,
         new_min,
         new_sec,
         new_ms,
@@ -775,16 +775,16 @@ pub fn date_set_seconds(
 
     let new_sec = args
         .first()
-        .map(|v| v.to_number() as u32)
-        .unwrap_or(c.second);
-    let new_ms = args.get(1).map(|v| v.to_number() as u32).unwrap_or(c.ms);
+        .map(|v| v.to_number() as i64)
+        .unwrap_or(c.second as i64);
+    let new_ms = args.get(1).map(|v| v.to_number() as i64).unwrap_or(c.ms as i64);
 
     let new_ts = components_to_ts(
         c.year,
         (c.month - 1) as i32,
         c.day as i32,
-        c.hour,
-        c.minute,
+        c.hour as i64,
+        c.minute as i64,
         new_sec,
         new_ms,
     );
@@ -802,15 +802,15 @@ pub fn date_set_milliseconds(
         return Ok(Guarded::unguarded(JsValue::Number(f64::NAN)));
     };
 
-    let new_ms = args.first().map(|v| v.to_number() as u32).unwrap_or(c.ms);
+    let new_ms = args.first().map(|v| v.to_number() as i64).unwrap_or(c.ms as i64);
 
     let new_ts = components_to_ts(
         c.year,
         (c.month - 1) as i32,
         c.day as i32,
-        c.hour,
-        c.minute,
-        c.second,
+        c.hour as i64,
+        c.minute as i64,
+        c.second as i64,
         new_ms,
     );
     let ts = set_date_timestamp(&this, new_ts)?;
